@@ -104,6 +104,34 @@ theorem ite_run (c : Prop) [Decidable c] (x y : M α) (s : Sys) :
   split <;> rfl
 end
 
+/-- panics that only a defect of the crate can produce (arithmetic overflow, out-of-bounds access, a
+read of an empty slot, a failed `debug_assert!`, a panic while panicking) — as opposed to the panics
+of user code and the documented ones -/
+def Panic.defect : Panic → Bool
+  | .user _ => false
+  | .doc _ => false
+  | _ => true
+
+/-- the run ended normally, or with a user / documented panic -/
+def NonDefect {α : Type} (r : Except Panic α) : Prop :=
+  match r with
+  | .ok _ => True
+  | .error p => p.defect = false
+
+theorem NonDefect.ok {α : Type} (a : α) : NonDefect (.ok a : Except Panic α) := trivial
+theorem nd_of_eq {α : Type} {m : M α} {s : Sys} {r : Except Panic α} {s' : Sys}
+    (e : m s = (r, s')) (hr : NonDefect r) : NonDefect (m s).1 := by rw [e]; exact hr
+
+/-- if a sequence of two steps did not end in a defect, neither did the first step -/
+theorem nd_of_bind {α β : Type} (m : M α) (f : α → M β) (s : Sys) (h : NonDefect ((m >>= f) s).1) :
+    NonDefect (m s).1 := by
+  simp only [bind_run] at h
+  cases hm : m s with
+  | mk r s' =>
+    cases r with
+    | ok a => trivial
+    | error p => rw [hm] at h; exact h
+
 section tactics
 open Lean Elab Tactic Meta
 
@@ -113,7 +141,10 @@ larger bodies; this does one `by_cases`.) -/
 elab "ifsplit1" : tactic => withMainContext do
   let g ← getMainGoal
   let t ← instantiateMVars (← g.getType)
-  let some c := t.find? (fun e => e.isAppOfArity ``ite 5 && !(e.getArg! 1).hasLooseBVars)
+  -- an `if` whose condition does not itself contain an `if` (innermost conditions first: the outer ones
+  -- then become arithmetic facts `omega` understands)
+  let hasIte (e : Expr) : Bool := (e.find? (fun x => x.isAppOfArity ``ite 5)).isSome
+  let some c := t.find? (fun e => e.isAppOfArity ``ite 5 && !(e.getArg! 1).hasLooseBVars && !hasIte (e.getArg! 1))
     | throwError "ifsplit1: no if-then-else in the goal"
   let cond := c.getArg! 1
   let (s1, s2) ← g.byCases cond `hif
@@ -129,6 +160,11 @@ elab "ifsplit1" : tactic => withMainContext do
     | ((try simp only [if_neg $h]); $simpset))
   let gs1 ← evalTacticAt tacPos s1.mvarId
   let gs2 ← evalTacticAt tacNeg s2.mvarId
+  -- progress check: the condition must be gone from the `if`s of the new goals (else `repeat'` would loop)
+  for g' in gs1 ++ gs2 do
+    let t' ← instantiateMVars (← g'.getType)
+    if (t'.find? (fun e => e.isAppOfArity ``ite 5 && e.getArg! 1 == cond)).isSome then
+      throwError "ifsplit1: the condition could not be eliminated"
   replaceMainGoal (gs1 ++ gs2)
 
 /-- case split on the first scrutinee of the goal that is a checked arithmetic step (`add_mod`,
@@ -147,7 +183,44 @@ elab "esplit1" : tactic => withMainContext do
   let mut out := []
   for sg in subgoals do
     out := out ++ (← evalTacticAt tac sg.mvarId)
+  for g' in out do
+    let t' ← instantiateMVars (← g'.getType)
+    if (t'.find? (fun x => x == e)).isSome then
+      throwError "esplit1: the scrutinee could not be eliminated"
   replaceMainGoal out
+
+/-- two reads `b.items t₁`, `b.items t₂` of the goal whose indices `omega` proves equal are made the same
+term (two bodies may compute one slot in two ways — `start + (size - 1)` and `start + (cap - 1)` on a
+full buffer); otherwise the case analysis would treat them as unrelated slots -/
+elab "itemsUnify" : tactic => withMainContext do
+  let g ← getMainGoal
+  let t ← instantiateMVars (← g.getType)
+  -- gather every read `b.items t` of the goal
+  let found ← IO.mkRef (#[] : Array Expr)
+  t.forEach fun e => do
+    if e.isAppOfArity ``CircBuf.CB.items 2 && !e.hasLooseBVars then
+      found.modify fun acc => if acc.contains e then acc else acc.push e
+  let reads ← found.get
+  for i in [0:reads.size] do
+    for j in [i+1:reads.size] do
+      let a := reads[i]!
+      let b := reads[j]!
+      if a.getArg! 0 != b.getArg! 0 then continue
+      let ia := a.getArg! 1
+      let ib := b.getArg! 1
+      if ia == ib then continue
+      let eqT ← mkEq ib ia
+      let m ← mkFreshExprMVar eqT
+      let ok ← try
+          let gs ← evalTacticAt (← `(tactic| omega)) m.mvarId!
+          pure gs.isEmpty
+        catch _ => pure false
+      if ok then
+        let r ← g.rewrite (← g.getType) m
+        let g' ← g.replaceTargetEq r.eNew r.eqProof
+        replaceMainGoal (g' :: r.mvarIds)
+        return
+  throwError "itemsUnify: nothing to unify"
 
 end tactics
 
@@ -166,7 +239,7 @@ macro_rules
        pure_bind_run, raise_bind, ite_bind, ite_run, dassert_run, getBuf_run, setBuf_run, pure_run, raise_run,
        checkIdx_bind, checkIdx_run', readInit_bind, readInit_run', writeCell_bind, writeCell_run',
        decide_eq_true_eq, Nat.not_lt, Nat.not_le, range'_zero_len, dropInPlace_nil])
-     <;> (repeat' (first | rfl | ifsplit1 | esplit1 | (simp only [bind_assoc_run, ite_bind, ite_run, raise_bind, pure_bind_run, pure_run, raise_run, dassert_bind, dassert_run, getBuf_bind, getBuf_run, setBuf_bind, setBuf_run, liftE_bind, liftE_run]) | split)) <;> (try subst_vars) <;> (try simp_all) <;> (try omega)))
+     <;> (repeat' (first | rfl | (dsimp only; done) | ifsplit1 | esplit1 | (simp only [bind_assoc_run, ite_bind, ite_run, raise_bind, pure_bind_run, pure_run, raise_run, dassert_bind, dassert_run, getBuf_bind, getBuf_run, setBuf_bind, setBuf_run, liftE_bind, liftE_run]) | split)) <;> (try subst_vars) <;> (try simp_all) <;> (try omega)))
 
 
 /-- the same with Lean's own `split` only -/
@@ -229,12 +302,47 @@ macro_rules
        decide_eq_true_eq, Nat.not_lt, Nat.not_le, range'_zero_len, dropInPlace_nil]
      try simp (disch := omega) only [addMod_ite, subMod_ite, uadd_ok', usub_ok', decide_eq_true_eq, if_pos,
        if_neg, Nat.mod_lt, gt_iff_lt, ge_iff_le, Nat.add_sub_cancel]
-     all_goals (repeat' (first | rfl | ifsplit1 | esplit1 | (simp only [bind_assoc_run, ite_bind, ite_run, raise_bind, pure_bind_run, pure_run, raise_run, dassert_bind, dassert_run, getBuf_bind, getBuf_run, setBuf_bind, setBuf_run, liftE_bind, liftE_run]) | split))
+     all_goals (repeat' (first | rfl | (dsimp only; done) | ifsplit1 | esplit1 | (simp only [bind_assoc_run, ite_bind, ite_run, raise_bind, pure_bind_run, pure_run, raise_run, dassert_bind, dassert_run, getBuf_bind, getBuf_run, setBuf_bind, setBuf_run, liftE_bind, liftE_run]) | split))
      all_goals (try subst_vars)
      all_goals (try simp (disch := omega) only [addMod_ite, subMod_ite, uadd_ok', usub_ok', decide_eq_true_eq, if_pos,
        if_neg, Nat.mod_lt, gt_iff_lt, ge_iff_le, Nat.add_sub_cancel] at *)
      all_goals (try simp_all)
      all_goals (try omega)
+     all_goals (try (repeat' (first | rfl | omega | apply And.intro | congr 1)))))
+
+/-- ties are stated for the runs of the model that do not end in a defect panic (`hnd`): every property
+theorem establishes such a run, and the branches in which only a *defect* could be reported — which
+the two bodies may reach in a different order, with the state changed to a different extent — need not
+be compared.  `tieNd h hnd [defs]` = `tieInv`, with `hnd` carried through the case analysis. -/
+syntax "tieNd" ident ident "[" Lean.Parser.Tactic.simpLemma,* "]" : tactic
+macro_rules
+  | `(tactic| tieNd $h $hnd [$ls,*]) =>
+  `(tactic| (
+     have hsz_ := Inv.size_le $h
+     have hst_ := Inv.start_lt $h
+     have hcw_ := Inv.cap_lt $h
+     revert $hnd
+     try simp only [$ls,*, readInit_twice]
+     simp only [$ls,*, liftE_ite, liftE_ok_eq, liftE_pure_eq, liftE_error_eq, liftE_bind_dist,
+       liftE_dassertE, bind_assoc_run, dassert_bind, getBuf_bind, setBuf_bind,
+       pure_bind_run, raise_bind, ite_bind, ite_run, dassert_run, getBuf_run, setBuf_run,
+       pure_run, raise_run, amod, smod, setStart, setSize, setItems, checkIdx_bind, checkIdx_run',
+       readInit_bind, readInit_run', writeCell_bind, writeCell_run', checkRange, View.sub, View.splitAt, View.all, View.empty, checkedSub,
+       uadd, usub, umul, umod, View.slots, Nat.zero_add, Nat.add_zero, Nat.sub_zero, range'_zero_len, dropInPlace_nil, Nat.zero_le, true_and]
+     try simp only [liftE_bind, liftE_run, bind_assoc_run, dassert_bind, getBuf_bind, setBuf_bind,
+       pure_bind_run, raise_bind, ite_bind, ite_run, dassert_run, getBuf_run, setBuf_run, pure_run, raise_run,
+       checkIdx_bind, checkIdx_run', readInit_bind, readInit_run', writeCell_bind, writeCell_run',
+       decide_eq_true_eq, Nat.not_lt, Nat.not_le, range'_zero_len, dropInPlace_nil]
+     try simp (disch := omega) only [addMod_ite, subMod_ite, uadd_ok', usub_ok', decide_eq_true_eq, if_pos,
+       if_neg, Nat.mod_lt, gt_iff_lt, ge_iff_le, Nat.add_sub_cancel]
+     all_goals (repeat' (first | (intro _; rfl) | (show NonDefect (Except.error _, _).fst → _; intro hnd_; simp [NonDefect, Panic.defect] at hnd_; done) | (show NonDefect (Except.ok _, _).fst → _; intro _) | ifsplit1 | itemsUnify | esplit1 | (simp only [bind_assoc_run, ite_bind, ite_run, raise_bind, pure_bind_run, pure_run, raise_run, dassert_bind, dassert_run, getBuf_bind, getBuf_run, setBuf_bind, setBuf_run, liftE_bind, liftE_run]) | split))
+     all_goals (try subst_vars)
+     all_goals (try simp (disch := omega) only [addMod_ite, subMod_ite, uadd_ok', usub_ok', decide_eq_true_eq, if_pos,
+       if_neg, Nat.mod_lt, gt_iff_lt, ge_iff_le, Nat.add_sub_cancel] at *)
+     all_goals (try (simp only [NonDefect, Panic.defect]; done))
+     all_goals (try simp_all [NonDefect, Panic.defect])
+     all_goals (try omega)
+     all_goals (try (intro _))
      all_goals (try (repeat' (first | rfl | omega | apply And.intro | congr 1)))))
 
 /-- first as functions on all states, then on the states satisfying the invariant; first unfolding the
@@ -245,5 +353,10 @@ macro_rules
   | `(tactic| tie2 $h [$ls,*]) => `(tactic| first
       | (tieInv $h [$ls,*, Gen.len, Gen.is_empty, Gen.is_full, Gen.inc_start, Gen.dec_start, Gen.inc_size, Gen.dec_size, Gen.front_maybe_uninit_mut, Gen.front_maybe_uninit, Gen.back_maybe_uninit, Gen.back_maybe_uninit_mut, Gen.get_maybe_uninit, Gen.get_maybe_uninit_mut, Gen.slices_uninit_mut, Gen.as_slices, Gen.as_mut_slices, Gen.front, Gen.back, Gen.get, Gen.front_mut, Gen.back_mut, Gen.get_mut, Gen.nth_front, Gen.nth_back, Gen.push_back, Gen.push_front, Gen.try_push_back, Gen.try_push_front, Gen.pop_back, Gen.pop_front, Gen.swap, Gen.swap_remove_back, Gen.swap_remove_front, Gen.drop_range, Gen.truncate_back, Gen.truncate_front, Gen.clear, Gen.remove, Gen.make_contiguous, incStart, decStart, incSize, decSize, frontSlot, backSlot, getSlot, slicesUninitMut, asSlices, asSlicesOf, dassertE, front?, back?, get?, nthFront?, nthBack?, pushBack, pushFront, tryPushBack, tryPushFront, popBack, popFront, swap, swapRemoveBack, swapRemoveFront, dropRange, dropSegments, truncateBack, truncateFront, clear, remove, makeContiguous]; done)
       | (tie [$ls,*, Gen.len, Gen.is_empty, Gen.is_full, Gen.inc_start, Gen.dec_start, Gen.inc_size, Gen.dec_size, Gen.front_maybe_uninit_mut, Gen.front_maybe_uninit, Gen.back_maybe_uninit, Gen.back_maybe_uninit_mut, Gen.get_maybe_uninit, Gen.get_maybe_uninit_mut, Gen.slices_uninit_mut, Gen.as_slices, Gen.as_mut_slices, Gen.front, Gen.back, Gen.get, Gen.front_mut, Gen.back_mut, Gen.get_mut, Gen.nth_front, Gen.nth_back, Gen.push_back, Gen.push_front, Gen.try_push_back, Gen.try_push_front, Gen.pop_back, Gen.pop_front, Gen.swap, Gen.swap_remove_back, Gen.swap_remove_front, Gen.drop_range, Gen.truncate_back, Gen.truncate_front, Gen.clear, Gen.remove, Gen.make_contiguous, incStart, decStart, incSize, decSize, frontSlot, backSlot, getSlot, slicesUninitMut, asSlices, asSlicesOf, dassertE, front?, back?, get?, nthFront?, nthBack?, pushBack, pushFront, tryPushBack, tryPushFront, popBack, popFront, swap, swapRemoveBack, swapRemoveFront, dropRange, dropSegments, truncateBack, truncateFront, clear, remove, makeContiguous]; done))
+
+/-- the tie tactic for a statement with a non-defect hypothesis: the stronger statements first -/
+syntax "tie3" ident ident "[" Lean.Parser.Tactic.simpLemma,* "]" : tactic
+macro_rules
+  | `(tactic| tie3 $h $hnd [$ls,*]) => `(tactic| (tieNd $h $hnd [$ls,*, Gen.len, Gen.is_empty, Gen.is_full, Gen.inc_start, Gen.dec_start, Gen.inc_size, Gen.dec_size, Gen.front_maybe_uninit_mut, Gen.front_maybe_uninit, Gen.back_maybe_uninit, Gen.back_maybe_uninit_mut, Gen.get_maybe_uninit, Gen.get_maybe_uninit_mut, Gen.slices_uninit_mut, Gen.as_slices, Gen.as_mut_slices, Gen.front, Gen.back, Gen.get, Gen.front_mut, Gen.back_mut, Gen.get_mut, Gen.nth_front, Gen.nth_back, Gen.push_back, Gen.push_front, Gen.try_push_back, Gen.try_push_front, Gen.pop_back, Gen.pop_front, Gen.swap, Gen.swap_remove_back, Gen.swap_remove_front, Gen.drop_range, Gen.truncate_back, Gen.truncate_front, Gen.clear, Gen.remove, Gen.make_contiguous, incStart, decStart, incSize, decSize, frontSlot, backSlot, getSlot, slicesUninitMut, asSlices, asSlicesOf, dassertE, front?, back?, get?, nthFront?, nthBack?, pushBack, pushFront, tryPushBack, tryPushFront, popBack, popFront, swap, swapRemoveBack, swapRemoveFront, dropRange, dropSegments, truncateBack, truncateFront, clear, remove, makeContiguous]; done))
 
 end CircBuf
